@@ -7,4 +7,5 @@ PROP = {'level': 'proof',
                'accept set is exact.',
  'level_note': 'Trusted: Lean kernel; RV.Model.Password as mirror of attribute.go (validated by correspondence); Lean MD5.',
  'trusted': ['Lean MD5 (RFC 1321)'],
- 'assumptions': []}
+ 'assumptions': [],
+ 'facts': ['encTunnelPassword']}
